@@ -9,7 +9,8 @@
 //! forms (tuples, arrays, `&`, `&mut`, owned, `TensorView`/`Tensor` convenience methods).
 
 use crate::util::*;
-use easy_ml::interop::TensorRefMatrix;
+use easy_ml::interop::{MatrixRefTensor, TensorRefMatrix};
+use easy_ml::matrices::views::{MatrixMut, MatrixRange, MatrixRef};
 use easy_ml::matrices::Matrix;
 use easy_ml::tensors::indexing::{TensorAccess, TensorTranspose};
 use easy_ml::tensors::views::{
@@ -188,6 +189,7 @@ fn leaf_values(id: u64, n: usize) -> Vec<u64> {
 enum Op {
     Leaf { id: u64, shape: Vec<(&'static str, usize)>, slot: Option<usize> },
     Matrix { id: u64, rows: usize, cols: usize, names: [&'static str; 2], slot: Option<usize> },
+    MatrixOf { names: [&'static str; 2] },
     Range { named: Vec<(&'static str, usize, usize)>, strict: bool, mask: bool },
     Index { provided: Vec<(&'static str, usize)> },
     Expand { extra: Vec<(usize, &'static str)> },
@@ -231,6 +233,13 @@ fn parse_op(toks: &[&str]) -> Option<Op> {
                 return None;
             }
             Op::Matrix { id: id.parse().ok()?, rows: rows.parse().ok()?, cols: cols.parse().ok()?, names: [n[0], n[1]], slot: None }
+        }
+        ["matrixof", names, ..] => {
+            let n = parse_names(names);
+            if n.len() != 2 {
+                return None;
+            }
+            Op::MatrixOf { names: [n[0], n[1]] }
         }
         ["range", spec, rest @ ..] => Op::Range { named: parse_triples(spec), strict: opt_arg("kind", rest) == Some("strict"), mask: false },
         ["mask", spec, rest @ ..] => Op::Range { named: parse_triples(spec), strict: opt_arg("kind", rest) == Some("strict"), mask: true },
@@ -635,6 +644,46 @@ fn apply_op(stack: &mut Vec<DV>, op: &mut Op, arena: &mut Vec<Leaf>, via: &str) 
                     Ok(v) => Box::new(v),
                     Err(_) => return Err(Rej::Reject),
                 }
+            };
+            stack.push(DV::D2(wrap(v, via)));
+            Ok(())
+        }
+        Op::MatrixOf { names } => {
+            let top = stack.pop().ok_or(Rej::Skip)?;
+            let src = match top {
+                DV::D2(src) => src,
+                other => {
+                    stack.push(other);
+                    return Err(Rej::Skip);
+                }
+            };
+            // the tensor view as a matrix (row or column major, or neither), possibly behind
+            // matrix wrappers that pass the layout on, as a tensor again
+            let matrix = MatrixRefTensor::from(src);
+            fn finish<M: MatrixMut<u64> + easy_ml::matrices::views::NoInteriorMutability + 'static>(
+                m: M,
+                names: [&'static str; 2],
+                via: &str,
+            ) -> Result<Dyn<2>, Rej> {
+                if names == ["row", "column"] && via.starts_with("from") {
+                    match TensorRefMatrix::from(m) {
+                        Ok(v) => Ok(Box::new(v)),
+                        Err(_) => Err(Rej::Reject),
+                    }
+                } else {
+                    match TensorRefMatrix::with_names(m, names) {
+                        Ok(v) => Ok(Box::new(v)),
+                        Err(_) => Err(Rej::Reject),
+                    }
+                }
+            }
+            let v: Dyn<2> = if via.contains("+mbox") {
+                finish(Box::new(matrix), *names, via)?
+            } else if via.contains("+mrange") {
+                let (rows, columns) = (matrix.view_rows(), matrix.view_columns());
+                finish(MatrixRange::from(matrix, 0..rows, 0..columns), *names, via)?
+            } else {
+                finish(matrix, *names, via)?
             };
             stack.push(DV::D2(wrap(v, via)));
             Ok(())
@@ -1152,6 +1201,32 @@ impl Script {
             }
         }
     }
+    /// `TensorAccess::from_memory_order` walked in its own order
+    fn memorder<S: TensorRef<u64, D>, const D: usize>(&mut self, v: &S) {
+        let ans = match catch(|| {
+            let layout = v.data_layout();
+            match TensorAccess::from_memory_order(v) {
+                None => "none".to_string(),
+                Some(access) => {
+                    let order = match &layout {
+                        DataLayout::Linear(o) => show_names(o),
+                        _ => "?".into(),
+                    };
+                    let cells: Vec<u64> = access.iter().collect();
+                    let first = cells[0];
+                    if cells.iter().enumerate().all(|(k, c)| *c == first + k as u64) {
+                        format!("linear={} cells={}+{}", order, show_cell(first), cells.len())
+                    } else {
+                        format!("linear={} cells={}", order, cells.iter().map(|c| show_cell(*c)).collect::<Vec<_>>().join(" "))
+                    }
+                }
+            }
+        }) {
+            Ok(a) => a,
+            Err(k) => panic_str(k),
+        };
+        self.rec("memorder via=static".into(), ans);
+    }
     /// writes through every in-range coordinate (and a few out of range): the value found behind
     /// the reference identifies the cell, the re-read must show the sentinel, every other
     /// coordinate of the view must be unchanged
@@ -1196,10 +1271,10 @@ impl Script {
     }
 }
 
-const STATIC_KEYS: [&str; 10] = [
+const STATIC_KEYS: [&str; 11] = [
     "stack_tuple2_refs", "stack_tuple3_mixed", "stack_tuple4_owned", "stack_array_boxed_ref",
     "chain_tuple2_mut", "chain_tuple3_refs", "chain_tuple4_owned", "chain_array3_refs",
-    "matrix_backed", "tensor_methods",
+    "matrix_backed", "tensor_methods", "matrix_of_tensor_view",
 ];
 
 fn static_case(key: &str) -> Vec<(String, String)> {
@@ -1335,6 +1410,29 @@ fn static_case(key: &str) -> Vec<(String, String)> {
                 s.probe(rn.source_ref());
             }
             let _ = &mut t;
+        }
+        "matrix_of_tensor_view" => {
+            let t = s.leaf(1, [("a", 2), ("b", 3)]);
+            // row major: the tensor itself as a matrix as a tensor
+            {
+                let v = TensorRefMatrix::with_names(MatrixRefTensor::from(&t), ["x", "y"]).unwrap();
+                s.built("matrixof x,y", &v);
+                s.probe(&v);
+                s.memorder(&v);
+            }
+            // column major: the reordered tensor as a matrix as a tensor
+            let t2 = s.leaf(2, [("a", 2), ("b", 3)]);
+            let reordered = t2.index_by(["b", "a"]);
+            s.built("access b,a", &reordered);
+            let v = TensorRefMatrix::with_names(MatrixRefTensor::from(reordered), ["x", "y"]).unwrap();
+            s.built("matrixof x,y", &v);
+            s.probe(&v);
+            s.memorder(&v);
+            // and transposed once more: the layout has to follow
+            let tr = TensorTranspose::from(&v, ["y", "x"]);
+            s.built("transpose y,x", &tr);
+            s.probe(&tr);
+            s.memorder(&tr);
         }
         other => panic!("unknown static case {}", other),
     }
